@@ -742,10 +742,12 @@ class HplUnaryOperator(HplExpression):
 
     @operand.validator
     def _check_operand(self, _attribute, arg: HplExpression):
-        self._type_check(arg, self.operator.parameter, force=True)
+        self._type_check(arg, self.operator.parameter)
 
     def __attrs_post_init__(self):
         object.__setattr__(self, 'data_type', self.operator.result)
+        # keep a narrowed copy: the operand may be part of another tree
+        object.__setattr__(self, 'operand', self.operand.cast(self.operator.parameter))
 
     @classmethod
     def minus(cls, operand: HplExpression) -> 'HplUnaryOperator':
@@ -1050,19 +1052,22 @@ class HplBinaryOperator(HplExpression):
 
     @operand1.validator
     def _check_operand1(self, _attribute, arg: HplExpression):
-        self._type_check(arg, self.operator.parameter1, force=True)
+        self._type_check(arg, self.operator.parameter1)
 
     @operand2.validator
     def _check_operand2(self, _attribute, arg: HplExpression):
-        self._type_check(arg, self.operator.parameter2, force=True)
+        self._type_check(arg, self.operator.parameter2)
 
     def __attrs_post_init__(self):
         object.__setattr__(self, 'data_type', self.operator.result)
+        # keep narrowed copies: the operands may be part of another tree
+        a: HplExpression = self.operand1.cast(self.operator.parameter1)
+        b: HplExpression = self.operand2.cast(self.operator.parameter2)
         if self.operator.similar_parameter_types:
-            a: HplExpression = self.operand1.cast(self.operand2.data_type)
-            b: HplExpression = self.operand2.cast(a.data_type)
-            object.__setattr__(self, 'operand1', a)
-            object.__setattr__(self, 'operand2', b)
+            a = a.cast(b.data_type)
+            b = b.cast(a.data_type)
+        object.__setattr__(self, 'operand1', a)
+        object.__setattr__(self, 'operand2', b)
 
     @classmethod
     def addition(cls, a: HplExpression, b: HplExpression) -> 'BinaryOperatorDefinition':
@@ -1562,9 +1567,20 @@ class HplDataAccess(HplExpression):
         raise NotImplementedError()
 
 
+def _narrowing_converter(t: DataType) -> Callable[[Any], Any]:
+    # keep a narrowed copy: the child may be part of another tree
+    def converter(expr: Any) -> Any:
+        return expr.cast(t) if isinstance(expr, HplExpression) else expr
+
+    return converter
+
+
 @frozen
 class HplFieldAccess(HplDataAccess):
-    message: HplExpression = field(validator=_type_checker(DataType.MESSAGE, force=True))
+    message: HplExpression = field(
+        converter=_narrowing_converter(DataType.MESSAGE),
+        validator=_type_checker(DataType.MESSAGE),
+    )
     field: str = field(validator=instance_of(str))
 
     @property
@@ -1619,8 +1635,14 @@ class HplFieldAccess(HplDataAccess):
 
 @frozen
 class HplArrayAccess(HplDataAccess):
-    array: HplExpression = field(validator=_type_checker(DataType.ARRAY, force=True))
-    index: HplExpression = field(validator=_type_checker(DataType.NUMBER, force=True))
+    array: HplExpression = field(
+        converter=_narrowing_converter(DataType.ARRAY),
+        validator=_type_checker(DataType.ARRAY),
+    )
+    index: HplExpression = field(
+        converter=_narrowing_converter(DataType.NUMBER),
+        validator=_type_checker(DataType.NUMBER),
+    )
 
     @property
     def is_indexed(self) -> bool:
